@@ -503,7 +503,7 @@ c05_parse!(c05_short_30, Short, 1, 15, 32, 30, 36, false);
 c05_parse!(c05_short_32, Short, 1, 15, 32, 32, 36, false);
 //@ h=c05_short_31 props=C05 cfgs=K1 tier=q t=300 | funcs: Short::from_str_bytes | bound: ALL byte strings of length 31 x 3 prefix modes
 c05_parse!(c05_short_31, Short, 1, 15, 32, 31, 36, false);
-//@ h=c05_short_0 props=C05 cfgs=K1 tier=q t=300 | funcs: Short::from_str_bytes | bound: the empty string x 3 prefix modes
+//@ h=c05_short_0 props=C05,C17 cfgs=K1 tier=q t=300 | funcs: Short::from_str_bytes | bound: the empty string x 3 prefix modes
 c05_parse!(c05_short_0, Short, 1, 15, 32, 0, 36, false);
 //@ h=c05_short_33 props=C05 cfgs=K1 tier=q t=300 | funcs: Short::from_str_bytes | bound: ALL byte strings of length 33 x 3 prefix modes
 c05_parse!(c05_short_33, Short, 1, 15, 32, 33, 36, false);
@@ -551,7 +551,7 @@ macro_rules! c05_symlen {
         }
     };
 }
-//@ h=c05_symlen_short props=C05 cfgs=K1 tier=q t=900 | funcs: Short::from_str_bytes | bound: ALL byte strings of EVERY length 0..=36 (symbolic length) x 3 prefix modes: InvalidStringLength iff the length is wrong for the mode; no panic
+//@ h=c05_symlen_short props=C05,C17 cfgs=K1 tier=q t=900 | funcs: Short::from_str_bytes | bound: ALL byte strings of EVERY length 0..=36 (symbolic length) x 3 prefix modes: InvalidStringLength iff the length is wrong for the mode; no panic
 c05_symlen!(c05_symlen_short, Short, 32, 40);
 //@ h=c05_symlen_normal props=C05 cfgs=K1 tier=t t=2400 | funcs: Normal::from_str_bytes | bound: all byte strings of every length 0..=76 x 3 prefix modes
 c05_symlen!(c05_symlen_normal, Normal, 72, 80);
